@@ -82,11 +82,16 @@ func vfDlgNameAddr(uri string, tag string, v int, side int, rnd func(int) int) (
 		sb.WriteString("<")
 		sb.WriteString(uri)
 		if decor && isSip {
-			sb.WriteString([]string{";transport=tcp", ";lr", ";user=phone;lr", ";x=%41"}[rnd(4)])
-			if rnd(2) == 0 {
-				sb.WriteString("?subject=a&h=b")
+			// uri-parameters, URI headers, both, or headers only
+			up := []string{";transport=tcp", ";lr", ";user=phone;lr", ";x=%41", "", ""}[rnd(6)]
+			sb.WriteString(up)
+			if up == "" || rnd(2) == 0 {
+				sb.WriteString([]string{"?subject=a&h=b", "?Subject=x"}[rnd(2)])
+				cls += "urihdrs,"
 			}
-			cls += "uriparams,"
+			if up != "" {
+				cls += "uriparams,"
+			}
 		}
 		sb.WriteString(">")
 	}
